@@ -51,8 +51,9 @@ def check_site(rep, facts, si, role):
     rep.check(ok2, R(2), fn, 'nonce-arg', found,
               'nonce = helper(&self.base_nonce, &self.seq), computed before any counter update, dominating the AEAD call',
               where(a, si.point))
-    if ok2 and role == 'seal':
-        check_nonce_helper(rep, facts, helper, bidx[0] + 1, sidx[0] + 1, 'R04.1')
+    if ok2:
+        # the receiver needs the same injective counter encoding: otherwise ciphertexts of other positions verify (replay)
+        check_nonce_helper(rep, facts, helper, bidx[0] + 1, sidx[0] + 1, 'R04.1' if role == 'seal' else 'R05.7')
     si.helper = helper if ok2 else None
     # the AEAD object is self.encryptor, borrowed immutably
     rep.check(field_ref_of_self(si.args[0], 'encryptor') and not (si.args[0][0] == 'addr' and si.args[0][3]),
@@ -232,6 +233,13 @@ def who_writes(rep, facts, sites, rule='R04.6'):
             rep.check(is_zero_init(facts, fields.get('seq', ('unknown', 'missing'))), rule, fn, 'ctor-seq',
                       pp(fields.get('seq', ('unknown', 'missing'))), 'seq starts at 0', where(a, s))
     rep.floor(rule, 'AeadCtx constructor sites', ctor_sites, 1)
+    # nobody outside the crate can reach the fields either
+    for path in ('aead::AeadCtx', 'aead::AeadCtxS', 'aead::AeadCtxR', 'aead::Seq'):
+        adt = facts.adts.get(path)
+        if adt is None:
+            continue
+        pubf = [f['name'] for f in adt['variants'][0]['fields'] if f['vis'] == 'pub' and adt.get('exported')]
+        rep.check(not pubf, rule, path, 'fields-not-public', pubf, 'context state is not writable from outside the crate', None)
     return n_bodies
 
 
